@@ -22,6 +22,11 @@
 (* them), the VALUE of every name and its TOTAL DERIVATIVE w.r.t. every    *)
 (* chain input - i.e. the sum over the data-flow paths of the products of  *)
 (* the partials, evaluated at the point each leaf really reads.            *)
+(* A leaf may read AND write a name (self-overwriting member, e.g. a state *)
+(* update (pos, vel) -> (pos, vel)): in a sequential chain it reads the    *)
+(* OLD value, the members after it read the NEW one, and its partials are  *)
+(* evaluated at the OLD value; the path sum runs over the successive       *)
+(* VERSIONS of the name.                                                   *)
 (*   Total(o, i) == Final.row[o][i]   (a zero block of shape |o| x |i|     *)
 (*   when no path exists: the sum is empty)                                *)
 (* Total is defined block by block, independently of any request: what a   *)
@@ -43,9 +48,14 @@
 (* equal Total on the requested pairs), RequestIndependence (they equal    *)
 (* the blocks a fresh process returns for compute_all_jacobians=True),     *)
 (* PathSumIsTotal (Total = explicit sum over data-flow paths), Shapes,     *)
-(* StructuralZeros.  On the classes where the code as read today is wrong  *)
-(* (SigClass # "plain") TLC REFUTES AccIsTotal (CheckKnown = TRUE) and the *)
-(* repaired rules (Repaired = TRUE) satisfy it.                            *)
+(* StructuralZeros.  On the classes where the code as it was read before   *)
+(* the repairs is wrong (SigClass # "plain") TLC REFUTES AccIsTotal        *)
+(* (CheckKnown = TRUE, Repaired = FALSE) and the repaired rules (Repaired  *)
+(* = TRUE) satisfy it.  The same for the linearization point of the        *)
+(* self-overwriting members of an MDOChain (LinVal): evaluated at the      *)
+(* value the member has written (RepairedPt = FALSE, the code as read      *)
+(* today) AccIsTotal is refuted with polynomial members, evaluated at the  *)
+(* value it has read (RepairedPt = TRUE) it holds.                         *)
 (***************************************************************************)
 EXTENDS Integers, Sequences, FiniteSets, TLC, Json, IOUtils, MatC09, ChainTopoDefs
 
@@ -53,6 +63,7 @@ CONSTANTS Exhaustive,    \* TRUE: every request history over Alphabet up to MaxH
           MaxHist,
           FullAlphabet,  \* exhaustive mode: every non-empty subset instead of singletons and full sets
           Repaired,      \* TRUE: the implementation-shaped model uses the REPAIRED assembly rules (fixes/C09-*.patch)
+          RepairedPt,    \* TRUE: ... and the REPAIRED linearization point of the self-overwriting members of an MDOChain
           CheckKnown     \* TRUE: AccIsTotal is demanded on every instance (used to show the defect classes at specification level)
 
 Insts == JsonDeserialize(IOEnv.C09_INPUT)
@@ -164,9 +175,16 @@ ReadSt(pt, d) == IF inst.outer = "chain" THEN SeqSt(pt)[d - 1] ELSE S0(pt)
 
 \* the Jacobian dictionary of leaf d after leaf.linearize(compute_all_jacobians=False): its differentiated
 \* outputs x inputs (discipline.py:231-239); empty when one of the two sets is empty (discipline.py:195-197)
+\* The value of its input i at which leaf d is linearized.  The specification: the value it has read.  The code
+\* as read (RepairedPt = FALSE): MDOChain linearizes every member at member.io.get_input_data(), the member's
+\* local data AFTER its execution (chain.py, reverse_chain_rule and _compute_jacobian), where a name the member
+\* both reads and writes holds the value it has WRITTEN.  (The members of a parallel/additive chain are
+\* re-executed from the chain's input data: parallel_chain.py, DiscParallelLinearization(execute=True).)
+LinVal(pt, d, i) == IF ~RepairedPt /\ inst.outer = "chain" /\ i \in DOut(d) THEN SeqSt(pt)[d].val[i]
+                    ELSE ReadSt(pt, d).val[i]
 LeafJac(d, di, do, pt) ==
     IF di[d] = {} \/ do[d] = {} THEN EmptyFn
-    ELSE [o \in do[d] |-> [i \in di[d] |-> Partial(d, o, i, ReadSt(pt, d).val[i])]]
+    ELSE [o \in do[d] |-> [i \in di[d] |-> Partial(d, o, i, LinVal(pt, d, i))]]
 
 \* --- chain_rule.traverse_add_diff_io on the name-based coupling graph
 Traverse(inN, outN) ==
@@ -381,7 +399,8 @@ View == <<inst, cIn, cOut, dIn, dOut, last, ret, sto, failed, reqIn, reqOut>>
 WellFormed ==
     /\ N >= 1 /\ Len(inst.ins) = N /\ Len(inst.outs) = N
     /\ \A v \in Var : Sz(v) \in 1..2
-    /\ \A d \in 1..N : (DIn(d) # {} /\ DOut(d) # {} /\ DIn(d) \cap DOut(d) = {} /\ DIn(d) \cup DOut(d) \subseteq Var)
+    \* (a leaf may read and write the same name: self-overwriting member)
+    /\ \A d \in 1..N : (DIn(d) # {} /\ DOut(d) # {} /\ DIn(d) \cup DOut(d) \subseteq Var)
     /\ \A d \in 1..N : \A o \in DOut(d) : \A i \in DIn(d) : IsMat(PM(d, o, i), Sz(o), Sz(i), -2, 2)
     /\ ToSet(inst.ord) = Var /\ Len(inst.ord) = inst.nv
     \* every leaf in exactly one block, blocks in listing order
@@ -413,9 +432,15 @@ SigClass ==
           ELSE IF DupOutput
           THEN "duplicate_output"
           ELSE "plain")
+    \* a member that reads and writes the same name(s); with polynomial members its partials depend on WHICH
+    \* version of the name they are evaluated at
+    ELSE IF SelfOverwriting(Topo) THEN (IF inst.poly THEN "self_overwriting_nonlinear" ELSE "self_overwriting")
     \* a name with two definitions along the chain: two producers, or a chain input and a producer
     ELSE (IF Overwritten(Topo) THEN "overwritten_variable" ELSE "plain")
-DefectClass == SigClass # "plain"
+\* The classes on which the model AS CONFIGURED is known to differ from the specification: every class but
+\* "plain" for the rules as they were read before the repairs; with the repaired accumulation rules, only the
+\* polynomial self-overwriting members as long as the linearization point is the one read in the code today.
+DefectClass == IF Repaired THEN (SigClass = "self_overwriting_nonlinear" /\ ~RepairedPt) ELSE SigClass # "plain"
 Agrees == LET fin == Final(jacPt)
               jac == Jac
           IN  /\ ~failed
